@@ -557,6 +557,31 @@ def _stmt_end(text, q):
     raise LiftError("statement end not found")
 
 
+class Auto(Rule):
+    """`auto [const] x = init;` and `for (auto x = init; ...` -> `__typeof__(init) [const] x = init` (value
+    declarations only; references need a unit rule).  The declared type is whatever C's typeof gives for the
+    (already rewritten) initialiser -- run it after the rules that translate the initialiser to C."""
+
+    def __init__(self, n="+"):
+        self.n = n
+
+    def apply(self, text):
+        out, pos, k = [], 0, 0
+        for m in re.finditer(r"\bauto(\s+const)?\s+(\w+)\s*=\s*", text):
+            if m.start() < pos:
+                continue
+            # initialiser extends to the next top-level ';' (or ',' at depth 0 is not supported)
+            end = _stmt_end(text, m.end())
+            init = text[m.end():end].strip()
+            out.append(text[pos:m.start()])
+            out.append("__typeof__(%s)%s %s = %s" % (init, m.group(1) or "", m.group(2), init))
+            pos = end
+            k += 1
+        out.append(text[pos:])
+        self.check(k, "Auto")
+        return "".join(out)
+
+
 class TryCatch(Rule):
     """`try { A } catch (...) { B }` -> `{ vx_exc = 0; A  vx_catch_k: if (vx_exc) { B } }` where calls
     marked may-throw (THROWS(...) macros inserted by other rules) jump to the handler.
@@ -584,7 +609,7 @@ class TryCatch(Rule):
             A = text[op + 1 : cl]
             Bk = text[cop + 1 : ccl]
             lab = "vx_handler_%d" % k
-            A = A.replace("VX_THROW_POINT", "VX_THROW_TO(%s)" % lab)
+            A = A.replace("VX_THROW_POINT", "VX_THROW_TO(%s)" % lab).replace("VX_THROW_NOW", "goto %s" % lab)
             rep = "{ VX_TRY_BEGIN(%d); { %s } goto vx_after_%d; %s: VX_CATCH_BEGIN(%d); { %s } vx_after_%d: ; }" % (
                 k, A, k, lab, k, Bk, k)
             text = text[: m.start()] + rep + text[ccl + 1 :]
